@@ -1,26 +1,36 @@
 """C15 - Shared package store is safe under concurrent projects.
 
 Layer L1 drives ONE `bob.share.LocalShare` store from 2-4 logical projects.  Every project owns a
-real `bob.builder.LocalBuilder` (share handler = LocalShare, BobState replaced by an in-memory
-stub, stub package steps), so that `_preparePackageStep`, `_useSharedPackage` and
-`_installSharedPackage` - the code that creates/removes the workspace links - are the code
-under test, and `gc` is called exactly as `bob clean --shared` does it.
+real `bob.builder.LocalBuilder` (share handler = LocalShare behind a recording proxy, BobState
+replaced by an in-memory stub, stub package steps), so that `_preparePackageStep`,
+`_useSharedPackage` and `_installSharedPackage` - the code that creates/removes the workspace
+links - are the code under test, and `gc` is called exactly as `bob clean --shared` does it.
 
-Three execution modes of the same generated history:
-  seq   operations one after the other in this process; all accounting invariants after EVERY op
+Execution modes of the same generated history:
+  seq   operations one after the other in this process; all accounting invariants after EVERY op;
+        usage history from a logical clock (os.utime on pkg.json after each op that touched it)
   thr   one thread per project under an owned schedule: the wrapped primitives (fcntl.flock,
-        os.rename/replace/link/symlink/unlink, shutil.rmtree, removePath, open of pkg.json /
-        repo.json) report to the scheduler and block until granted; flock is done with LOCK_NB
-        and the scheduler never grants a lock request that the lock table says would block.
-        flock locks belong to open file descriptions, so two threads that opened the file
-        separately exclude each other exactly like two processes.
-  fork  the same protocol with one forked process per project talking over pipes (the design's
-        E6).  Used for a sample of schedules and to CONFIRM every thr-mode violation before it
-        is reported (fork of the harness costs ~0.2 s under load, thr mode costs nothing).
+        os.rename/replace/link/symlink/unlink/mkdir-of-visible-dirs, shutil.rmtree, removePath, open
+        of pkg.json / repo.json) report to the scheduler and block until granted; flock is done
+        with LOCK_NB and the scheduler never grants a lock request that its lock table says would
+        block; there is an extra scheduling point after every unlock.  flock locks belong to open
+        file descriptions, so two threads that opened the file separately exclude each other
+        exactly like two processes.  Only one worker runs at any time, so every grant is a moment
+        at which the parent inspects the store ("what could another process see now").
+  fork  the same protocol with one forked process per project talking over pipes (DESIGN 2.6).
+        Used for a sample of schedules and to CONFIRM every thr-mode violation before it is
+        reported (a fork of the harness costs 0.2-1 s on the loaded machine, a thread nothing).
+  e2e   (L2) two real Bob projects with identical `shared: True` recipes and one store configured
+        in default.yaml build concurrently as real `bob dev` processes (the package step waits, with
+        bash builtins, until the other project builds the same package), then `rm -rf dev` of one
+        project, `bob clean --shared [flags]`, optionally a rebuild; all exit 0, store invariants
+        (1) and (4), links of the surviving project still resolve after a non-forced clean.
 
-Deviation from DESIGN.md 3/C15: threads instead of processes for the bulk of the schedules (see
-above; the schedule is the same replayable value in both transports); no L2 layer unless noted
-in RULE.
+Deviations from DESIGN.md 3/C15: threads instead of processes for the bulk of the schedules (same
+replayable schedule value in both transports); L1 scratch directories live on /dev/shm when it
+exists (rmdir on the ext4 scratch disk is serialised machine wide: 14 ms with 16 shards; set
+VERIF_C15_DISK=1 to use the disk); L2 has 2 projects, does not compare against a local clean
+build (the content is a constant file) and runs only a handful of cases per shard.
 """
 import os, sys, json, stat, errno, hashlib, threading, queue, pickle, struct, select, signal
 import traceback, collections, fcntl, shutil, gzip, time
@@ -48,13 +58,21 @@ RULE = ("Generated histories (4-14 ops) of prep (= real LocalBuilder._preparePac
         "predicate (unused only, never the new package, oldest usage first with ties free, each removal needed, "
         "stop when within quota), gc return value == remaining size, no operation raises. Non-trivial: an install "
         "lost the race for a build-id that another project installed after the loser's prep, or a gc ran while a "
-        "project was between prep and install and after another project's successful use; distinct = hash of case.")
+        "project was between prep and install and after another project's successful use; distinct = hash of case. "
+        "Every thr violation is re-run with forked worker processes before it is reported. Layer e2e: two real Bob "
+        "projects (shared: True recipes, share configured in default.yaml) build concurrently as real processes with "
+        "a rendezvous in the package step, then rm -rf dev of one project, bob clean --shared with generated flags, "
+        "optional rebuild; exit status 0, store invariants, surviving links resolve after a non-forced clean.")
 ASSUMPTIONS = ["the window between useSharedPackage/installSharedPackage returning and the builder creating its link "
                "is not 'in use' (counted as info_use_window / info_install_window)",
                "with pruneUsed (--used) only 'used packages go only while over quota' is demanded; the order used-vs-"
                "unused and the combination with --all-unused are outside the property (counted as info_*)",
                "a link that dangled and resolves again because the build-id was re-installed is not a user "
-               "(info_stale_link_revived)"]
+               "(info_stale_link_revived); the same when the package was collected and re-installed by somebody else "
+               "between the share API call and the link creation (info_window_reincarnated)",
+               "used/unused status of a package whose link appeared or vanished while a gc held its lock is taken as "
+               "whatever the gc decided (gc-judgement-relaxed-link-changed-during-gc)",
+               "L1 scratch on tmpfs (/dev/shm): same flock/rename/link semantics, no journal contention"]
 TIME_BUDGET = {"quick": 190, "thorough": 1500}
 BATCH = 40
 
@@ -566,7 +584,7 @@ class Project:
         n0 = len(self.spy.log)
         step = self.step(k, p)
         self.builder._installSharedPackage(step, p.bid)
-        calls = self.spy.log[n0:]
+        calls = [c for c in self.spy.log[n0:] if c[0] == "install"]
         if calls:
             res["installed"] = bool(calls[-1][1][1])
             res["install_path"] = calls[-1][1][0]
@@ -1055,7 +1073,13 @@ class Monitor:
                     self.labels.add("gc-between-use-and-install")
                     self.nontrivial = True
             if pr.use and pr.inst and r["installed"] is not None:
-                self.check_link(i, r, p, "install")
+                W = r["W"]
+                if r["installed"] is False and os.path.isdir(W) and not os.path.islink(W) and self.mode != "seq":
+                    # the loser of an install race found the winner's package collected again before it could
+                    # register as user: it keeps its private (complete) result - a legitimate outcome
+                    self.labels.add("install-race-lost-kept-private")
+                else:
+                    self.check_link(i, r, p, "install")
         elif kind == "gc":
             rec = self.lastgc.pop(wid, None)
             self.labels.add("gc%s%s%s" % ("-used" if r["used"] else "", "-all" if r["all"] else "", "-dry" if r["dry"] else ""))
@@ -1675,6 +1699,8 @@ def run_case(ctx, case, mode=None, record=True):
         vlib.rmtree(base)
 
 def check(ctx, case):
+    if case.get("mode") == "fork" and ctx.out_of_time() and not ctx.in_shrink:
+        return              # slow layer: the time guard also applies inside a batch (the first example of a batch is the minimal one)
     try:
         run_case(ctx, case)
     except Violation as v:
@@ -1750,8 +1776,10 @@ def e2e_store_check(ctx, case, store, where):
         ctx.fail("repo-json-lists-wrong-packages", "%s: repo.json %r, visible packages with their pkg.json sizes %r" % (where, listed, sizes), case)
     return vis
 
-def run_e2e(ctx, case):
+def run_e2e(ctx, case, guard=False):
     from vlib import bobproc
+    if guard and ctx.out_of_time():
+        return
     base = ctx.tmpdir()            # real processes: the ordinary scratch disk
     try:
         store = os.path.join(base, "store")
@@ -1766,11 +1794,17 @@ def run_e2e(ctx, case):
         labels = {"mode:e2e", "e2e-clean:" + (" ".join(case["clean"]) or "plain")}
         res = {}
         def build(i):
-            res[i] = bobproc.script(projs[i], ["dev"] + names)
+            res[i] = bobproc.script(projs[i], ["dev"] + names, timeout=150)
         ts = [threading.Thread(target=build, args=(i,)) for i in range(2)]
         for t in ts: t.start()
         for t in ts: t.join()
         def failed(what, r):
+            if r.rc == -999:
+                # no verdict from a command that did not finish in time on a loaded machine
+                ctx.inconclusive += 1
+                ctx.label("e2e-timeout")
+                ctx.extra.setdefault("e2e_timeouts", []).append("%s: %s" % (what, (r.out + r.err)[-300:]))
+                return
             meta = "JSONDecodeError" in r.err or "Corrupt meta info" in r.err or "Corrupt meta info" in r.out
             ctx.fail("e2e-metadata-race" if meta else "e2e-command-failed",
                      "%s exited with %d: %s %s" % (what, r.rc, r.out[-300:], r.err[-600:]), case)
@@ -1798,7 +1832,7 @@ def run_e2e(ctx, case):
         drop = case["drop"]
         if drop < 2:
             shutil.rmtree(os.path.join(projs[drop], "dev"))
-        r = bobproc.script(projs[0], ["clean", "--shared"] + case["clean"])
+        r = bobproc.script(projs[0], ["clean", "--shared"] + case["clean"], timeout=150)
         if r.rc != 0:
             if case["quota"] is None and "--used" in case["clean"] and "--all-unused" in case["clean"] and "NoneType" in r.err:
                 ctx.fail("gc-raised-TypeError:used+all-unused-without-quota", "`bob clean --shared %s`: %s" % (" ".join(case["clean"]), r.err[-400:]), case)
@@ -1826,7 +1860,7 @@ def run_e2e(ctx, case):
         e2e_store_check(ctx, case, store, "after bob clean --shared")
         if case["rebuild"]:
             i = 1 if drop != 1 else 0
-            r = bobproc.script(projs[i], ["dev"] + names)
+            r = bobproc.script(projs[i], ["dev"] + names, timeout=150)
             if r.rc != 0:
                 failed("`bob dev` after the clean in project %d" % i, r)
                 return
@@ -1921,8 +1955,8 @@ def case_st(mode, quick):
                               min_size=0, max_size=40) if conc else st.just([])),
     })
 
-LAYERS = [("seq", 0.30, ("history",), 50), ("thr", 0.44, ("history", "schedule"), 30), ("fork", 0.12, ("history", "schedule"), 3),
-          ("e2e", 0.14, None, 1)]
+LAYERS = [("seq", 0.30, ("history",), 50), ("thr", 0.44, ("history", "schedule"), 30), ("fork", 0.12, ("history", "schedule"), 8),
+          ("e2e", 0.14, None, 6)]
 
 def shard(ctx):
     import bob.builder, bob.share  # noqa (warm)
@@ -1935,7 +1969,9 @@ def shard(ctx):
         t += total * frac
         ctx.deadline = min(overall, t)
         if mode == "e2e":
-            run_hypothesis(ctx, e2e_st, lambda c: run_e2e(ctx, c), ctx.n(10**6, 10**7), shrink=False, salt=mode)
+            if ctx.deadline - time.time() < 12:
+                continue
+            run_hypothesis(ctx, e2e_st, lambda c: run_e2e(ctx, c, guard=True), ctx.n(10**6, 10**7), shrink=False, salt=mode)
         else:
             run_hypothesis(ctx, case_st(mode, q), lambda c: check(ctx, c), ctx.n(10**6, 10**7), shrink=False, minimize=mini, salt=mode)
         ctx.extra.pop("cases_not_run_time_guard", None)
